@@ -288,7 +288,8 @@ func runC09(c *Ctx) {
 		}
 	}
 	// registered certificates of non-RSA type / garbled
-	for _, cert := range []string{ecCertB64, "AAAA", "", spKeys.B64[:100], "-----BEGIN CERTIFICATE-----" + spKeys.B64 + "-----END CERTIFICATE-----"} {
+	for _, cert := range []string{ecCertB64, "AAAA", "", spKeys.B64[:100], "-----BEGIN CERTIFICATE-----" + spKeys.B64 + "-----END CERTIFICATE-----",
+		" ", "\n      \n", "-----BEGIN CERTIFICATE-----\n-----END CERTIFICATE-----", "\t", spKeys.B64 + "\n" + spKeys.B64} {
 		func() {
 			c.rep.Evaluations++
 			defer func() {
